@@ -193,7 +193,13 @@ BOUNDS = ["nb", "mb"]
 
 
 def gen_guard(tape):
-    k = tape.weighted([5, 0.7, 3, 2, 1.5, 0.5, 0.5, 1.0], "guard")
+    k = tape.weighted([5, 0.7, 3, 2, 1.5, 0.5, 0.5, 1.0, 0.6], "guard")
+    if k == 8:
+        # negations of a literal (what is left when a flag in a guard is replaced by a constant)
+        g = [True, False][tape.draw(2, "neglit")]
+        for _ in range(1 + tape.draw(3, "nneg")):
+            g = LogicalNot(g)
+        return g
     if k == 7:
         # comparison guards over real-valued inputs (which may be NaN), plain or negated
         from pymbolic.primitives import Comparison
@@ -222,8 +228,8 @@ def gen_loops(tape):
     loops = []
     names = ["i", "j", "k"]
     for li in range(n):
-        lo = [0, 1, var("nb")][tape.weighted([4, 1, 1], "lo")]
-        hi = [2, 3, 0, var("mb"), None][tape.weighted([3, 2, 1, 2, 1 if li > 0 else 0], "hi")]
+        lo = [0, 1, var("nb"), -2, -3][tape.weighted([4, 1, 1, 0.7, 0.4], "lo")]
+        hi = [2, 3, 0, var("mb"), None, -1][tape.weighted([3, 2, 1, 2, 1 if li > 0 else 0, 0.5], "hi")]
         if hi is None:
             hi = var(names[li - 1]) + 1
         loops.append((names[li], lo, hi))
